@@ -51,17 +51,16 @@ T1_ACTIONS = (
 
 ENUM_CFG = """INIT EnumInit
 NEXT EnumNext
-CONSTANTS Level = %(level)d
- NT = %(nt)d
+CONSTANTS Level = 2
+ NT = 2
  MaxOps = 0
  Repaired = FALSE
- L = %(L)d
- CSet = {%(cset)s}
+ Groups <- %(groups)s
 """
 
 TRACE_CFG = """SPECIFICATION TraceSpec
-CONSTANTS Level = %(level)d
- NT = %(nt)d
+CONSTANTS Level = 2
+ NT = 2
  MaxOps = 1000000
  Repaired = %(rep)s
 INVARIANT Verdict
@@ -227,10 +226,12 @@ class World:
                     sm[t - 1] = self._simid(se)
         return st, sm
 
-    def probe(self, cn, obj, done):
-        """Try every candidate call on a copy of the container; `done` = rows called so far."""
+    def probe(self, cn, obj, done, nt):
+        """Try every candidate call (time points 1..nt) on a copy of the container; `done` = rows called so far."""
         out = []
         for r in self.probes[cn]:
+            if r["t"] > nt:
+                continue
             if cn == "pb":
                 c = self.new(cn)
                 for d in done:
@@ -240,30 +241,30 @@ class World:
             out.append([r["idx"], self.call(cn, c, r)[0]])
         return out
 
-    def replay(self, cn, idxs, probe_every):
+    def replay(self, cn, idxs, nt, probe_every, probe_init):
         obj = self.new(cn)
         st, sm = self.observe(cn, obj)
-        init = {"st": st, "sm": sm, "pr": self.probe(cn, obj, [])}
+        init = {"st": st, "sm": sm, "pr": self.probe(cn, obj, [], nt) if probe_init else []}
         ops, done, excs = [], [], []
         for n, i in enumerate(idxs):
             r = self.table[i - 1]
             code, exc = self.call(cn, obj, r)
             done.append(r)
             st, sm = self.observe(cn, obj)
-            pr = self.probe(cn, obj, done) if (probe_every or n == len(idxs) - 1) else []
+            pr = self.probe(cn, obj, done, nt) if (probe_every or n == len(idxs) - 1) else []
             ops.append({"i": i, "r": code, "st": st, "sm": sm, "pr": pr})
             excs.append(exc)
-        return {"c": cn, "init": init, "ops": ops}, excs
+        return {"c": cn, "nt": nt, "init": init, "ops": ops}, excs
 
 
-def guarded_replay(ctx, W, cn, idxs, probe_every, meta):
+def guarded_replay(ctx, W, cn, idxs, nt, probe_every, probe_init):
     """One history under a time limit; a history that does not come back is a violation."""
     try:
         with time_limit(10):
-            return W.replay(cn, idxs, probe_every)
+            return W.replay(cn, idxs, nt, probe_every, probe_init)
     except ImplTimeout:
         ctx.violation(
-            "impl-nonterminating", "an effect-insertion history does not terminate within 10 s", dict(meta, c=cn, ops=idxs)
+            "impl-nonterminating", "an effect-insertion history does not terminate within 10 s", {"c": cn, "nt": nt, "ops": idxs}
         )
     return None, None
 
@@ -271,11 +272,13 @@ def guarded_replay(ctx, W, cn, idxs, probe_every, meta):
 # ----------------------------------------------------------------------------------------
 # TLC runs
 # ----------------------------------------------------------------------------------------
-def enumerate_histories(ctx, label, level, nt, L, cset):
-    d = ctx.sub("enum-" + label)
+def enumerate_histories(ctx, groups):
+    """groups: name of the group list defined in EffectConflictsEnum (GroupsQuick / GroupsThorough / GroupsNone)."""
+    d = ctx.sub("enum")
     out, tab = os.path.join(d, "hist.ndjson"), os.path.join(d, "table.ndjson")
-    cfg = ENUM_CFG % {"level": level, "nt": nt, "L": L, "cset": ", ".join('"%s"' % c for c in cset)}
-    res = tlc.run_tlc("EffectConflictsEnum", cfg, d, env={"OUT": out, "TABLE": tab}, workers=1, timeout=3000)
+    res = tlc.run_tlc(
+        "EffectConflictsEnum", ENUM_CFG % {"groups": groups}, d, env={"OUT": out, "TABLE": tab}, workers=1, timeout=3000
+    )
     if res.error or res.violated:
         raise MachineryError("EffectConflictsEnum failed: %s %s" % (res.violated, res.error))
     table = tlc.read_ndjson(tab)
@@ -286,26 +289,30 @@ def enumerate_histories(ctx, label, level, nt, L, cset):
     for i, r in enumerate(table):
         if r["idx"] != i + 1:
             raise MachineryError("table rows out of order")
+    hist.sort(key=lambda h: (h["g"], h["c"], h["ops"]))
     return table, tab, hist
 
 
-def judge(ctx, label, level, nt, tabpath, traces, repaired):
+def judge(ctx, label, tabpath, traces, repaired, batch=40000):
     """Returns {trace id: [[class, clause, step, feature], ...]} for the failing traces."""
-    d = ctx.sub("judge-%s-%s" % (label, "rep" if repaired else "asis"))
-    path = os.path.join(d, "traces.ndjson")
-    tlc.write_ndjson(path, traces)
-    cfg = TRACE_CFG % {"level": level, "nt": nt, "rep": "TRUE" if repaired else "FALSE"}
-    res = tlc.run_tlc("EffectConflictsTrace", cfg, d, env={"TRACES": path, "TABLE": tabpath}, timeout=3000)
-    if res.error or res.violated:
-        raise MachineryError("EffectConflictsTrace failed: %s %s" % (res.violated, res.error))
-    expected = sum(len(t["ops"]) + 1 for t in traces)
-    if res.distinct != expected:
-        raise MachineryError("trace judge consumed %d states, expected %d" % (res.distinct, expected))
-    ctx.add_tlc("trace-%s Repaired=%s" % (label, repaired), res)
     fails = {}
-    for p in res.printed:
-        if p and p[0] == "FAIL":
-            fails[p[1]] = p[2]
+    for b0 in range(0, len(traces), batch):
+        part = traces[b0 : b0 + batch]
+        d = ctx.sub("judge-%s-%s-%d" % (label, "rep" if repaired else "asis", b0 // batch))
+        path = os.path.join(d, "traces.ndjson")
+        tlc.write_ndjson(path, part)
+        cfg = TRACE_CFG % {"rep": "TRUE" if repaired else "FALSE"}
+        res = tlc.run_tlc("EffectConflictsTrace", cfg, d, env={"TRACES": path, "TABLE": tabpath}, workers=8, timeout=3000)
+        if res.error or res.violated:
+            raise MachineryError("EffectConflictsTrace failed: %s %s" % (res.violated, res.error))
+        expected = sum(len(t["ops"]) + 1 for t in part)
+        if res.distinct != expected:
+            raise MachineryError("trace judge consumed %d states, expected %d" % (res.distinct, expected))
+        ctx.add_tlc("trace-%s-%d Repaired=%s" % (label, b0 // batch, repaired), res)
+        for p in res.printed:
+            if p and p[0] == "FAIL":
+                fails[p[1]] = p[2]
+        os.remove(path)
     for tid, bad in fails.items():
         for b in bad:
             if b[0] == "M":
@@ -324,7 +331,7 @@ def t1(ctx, cfgs):
                 "MCEffectConflicts",
                 T1_CFG % {"level": c["level"], "nt": c["nt"], "maxops": c["maxops"], "rep": rep, "props": props},
                 d,
-                workers=1 if name == "as-written" else 16,  # deterministic counterexample
+                workers=1 if name == "as-written" else 8,  # 1 worker: deterministic counterexample
                 coverage=cover,
                 timeout=3000,
             )
@@ -358,12 +365,16 @@ def t1(ctx, cfgs):
 def random_history(rng, W, cn):
     n = rng.randint(4, 9)
     rows = W.offered[cn]
-    # a few calls drawn from a small pool so that repetitions and conflicts are frequent, the rest uniform
+    # half of the calls come from a small pool so that repetitions and conflicts are frequent
     pool = [rng.choice(rows)["idx"] for _ in range(4)]
     return [rng.choice(pool) if rng.random() < 0.5 else rng.choice(rows)["idx"] for _ in range(n)]
 
 
-def report(ctx, fails, byid, excnames, groupmeta):
+def describe(table, idxs):
+    return [{k: table[i - 1][k] for k in ("k", "fl", "v", "c", "s", "t")} for i in idxs]
+
+
+def report(ctx, fails, byid, excnames, table):
     """Turn class S / O failures into violations (signature: clause|feature)."""
     for tid in sorted(fails):
         t = byid[tid]
@@ -373,16 +384,15 @@ def report(ctx, fails, byid, excnames, groupmeta):
             sig = "%s|%s" % (clause, feature)
             if clause == "exception-class" and step >= 1:
                 sig = "%s|%s" % (clause, excnames[tid][step - 1])
-            calls = [groupmeta["table"][o["i"] - 1] for o in t["ops"]]
+            idxs = [o["i"] for o in t["ops"]]
             ctx.violation(
                 sig,
-                "%s history of %d calls: clause %s fails at call %d (%s)" % (t["c"], len(t["ops"]), clause, step, feature),
+                "%s history of %d calls: clause %s fails at call %d (%s)" % (t["c"], len(idxs), clause, step, feature),
                 {
-                    "level": groupmeta["level"],
-                    "nt": groupmeta["nt"],
                     "c": t["c"],
-                    "ops": [o["i"] for o in t["ops"]],
-                    "calls": [{k: r[k] for k in ("k", "fl", "v", "c", "s", "t")} for r in calls],
+                    "nt": t["nt"],
+                    "ops": idxs,
+                    "calls": describe(table, idxs),
                     "clause": clause,
                     "step": step,
                     "feature": feature,
@@ -394,91 +404,71 @@ def report(ctx, fails, byid, excnames, groupmeta):
 def run(ctx):
     q = ctx.quick
     # ---- T2: TLC-enumerated histories replayed on the real containers -------------------
-    if q:
-        groups = [
-            dict(label="full-L2", level=2, nt=1, L=2, cset=CONTAINERS, every=True, random=0),
-            dict(label="core-L3", level=1, nt=1, L=3, cset=CONTAINERS, every=True, random=0),
-            dict(label="full-2tp-L2", level=2, nt=2, L=2, cset=("da", "pb"), every=True, random=1500),
-        ]
-    else:
-        groups = [
-            dict(label="full-L3", level=2, nt=1, L=3, cset=CONTAINERS, every=True, random=0),
-            dict(label="core-L4", level=1, nt=1, L=4, cset=CONTAINERS, every=False, random=0),
-            dict(label="full-2tp-L2", level=2, nt=2, L=2, cset=("da", "pb"), every=True, random=20000),
-            dict(label="core-2tp-L3", level=1, nt=2, L=3, cset=("da", "pb"), every=True, random=0),
-        ]
-    nid = 0
-    nontrivial = 0
-    rejected_then_more = 0
-    for g in groups:
-        table, tabpath, hist = enumerate_histories(ctx, g["label"], g["level"], g["nt"], g["L"], g["cset"])
-        W = World(table)
-        g["table"], g["tabpath"] = table, tabpath
-        traces, excnames = [], {}
-        todo = [(h["c"], h["ops"], g["every"]) for h in hist]
-        for i in range(g["random"]):
-            cn = CONTAINERS[i % 3]
-            todo.append((cn, random_history(ctx.rng, W, cn), True))
-        for cn, idxs, every in todo:
-            t, excs = guarded_replay(ctx, W, cn, idxs, every, {"level": g["level"], "nt": g["nt"]})
-            if t is None:
-                continue
-            t["id"] = nid
-            excnames[nid] = excs
-            nid += 1
-            traces.append(t)
-            rs = [o["r"] for o in t["ops"]]
-            if any(rs):
-                nontrivial += 1
-                if any(rs[:-1]):
-                    rejected_then_more += 1
-        g["traces"], g["excnames"] = traces, excnames
-        ctx.cov["evaluations"] += len(traces)
-        ctx.cov["traces_validated_against_impl"] += len(traces)
-        if traces:
-            mid = traces[len(traces) // 2]
-            ctx.sample(
-                {
-                    "kind": "history %s on %s" % (g["label"], mid["c"]),
-                    "calls": [{k: table[o["i"] - 1][k] for k in ("k", "fl", "v", "c", "s", "t")} for o in mid["ops"]],
-                    "raised": [o["r"] for o in mid["ops"]],
-                }
-            )
+    table, tabpath, hist = enumerate_histories(ctx, "GroupsQuick" if q else "GroupsThorough")
+    W = World(table)
+    # probes after every call, except in the largest groups of the thorough tier (after the last call)
+    final_only = set() if q else {"core-L4"}
+    todo = [(h["g"], h["c"], h["ops"], h["nt"], h["g"] not in final_only) for h in hist]
+    nrand = 600 if q else 12000
+    for i in range(nrand):
+        cn = CONTAINERS[i % 3]
+        todo.append(("random", cn, random_history(ctx.rng, W, cn), 2, True))
+    traces, excnames, pergroup = [], {}, {}
+    nontrivial = rejected_then_more = 0
+    seen_init = set()
+    for g, cn, idxs, nt, every in todo:
+        t, excs = guarded_replay(ctx, W, cn, idxs, nt, every, (cn, nt) not in seen_init)
+        seen_init.add((cn, nt))
+        if t is None:
+            continue
+        t["id"] = len(traces)
+        excnames[t["id"]] = excs
+        traces.append(t)
+        pergroup[g] = pergroup.get(g, 0) + 1
+        rs = [o["r"] for o in t["ops"]]
+        if any(rs):
+            nontrivial += 1
+            if any(rs[:-1]):
+                rejected_then_more += 1
+    ctx.cov["evaluations"] += len(traces)
+    ctx.cov["traces_validated_against_impl"] += len(traces)
+    for t in (traces[len(hist) // 2], traces[-1]):
+        ctx.sample({"container": t["c"], "calls": describe(table, [o["i"] for o in t["ops"]]), "raised": [o["r"] for o in t["ops"]]})
     # ---- T3: TLC judges; which Impl configuration does the code conform to? --------------
-    fails_asis = {g["label"]: judge(ctx, g["label"], g["level"], g["nt"], g["tabpath"], g["traces"], False) for g in groups}
-    nonconf_asis = sum(1 for f in fails_asis.values() for bad in f.values() if any(b[0] == "I" for b in bad))
+    def nonconforming(f):
+        return sum(1 for bad in f.values() if any(b[0] == "I" for b in bad))
+
+    fails = judge(ctx, "all", tabpath, traces, False)
     conforms = "as-written"
-    fails = fails_asis
-    if nonconf_asis:
-        fails_rep = {g["label"]: judge(ctx, g["label"], g["level"], g["nt"], g["tabpath"], g["traces"], True) for g in groups}
-        nonconf_rep = sum(1 for f in fails_rep.values() for bad in f.values() if any(b[0] == "I" for b in bad))
-        if nonconf_rep == 0:
+    if nonconforming(fails):
+        fails_rep = judge(ctx, "all", tabpath, traces, True)
+        if nonconforming(fails_rep) == 0:
             conforms, fails = "repaired", fails_rep
         else:
             conforms = "neither"
-            if nonconf_rep < nonconf_asis:
+            if nonconforming(fails_rep) < nonconforming(fails):
                 fails = fails_rep
     ctx.notes["impl_layer_conformance"] = conforms
-    for g in groups:
-        byid = {t["id"]: t for t in g["traces"]}
-        report(ctx, fails[g["label"]], byid, g["excnames"], g)
-        if conforms == "neither":
-            for tid in sorted(fails[g["label"]]):
-                for cls, clause, step, feature in fails[g["label"]][tid]:
-                    if cls == "I":
-                        t = byid[tid]
-                        ctx.violation(
-                            "impl-model|" + clause,
-                            "the code's conflict bookkeeping matches neither the as-written nor the repaired Impl layer "
-                            "(%s at call %d): the T1 results do not transfer to this code" % (clause, step),
-                            {"level": g["level"], "nt": g["nt"], "c": t["c"], "ops": [o["i"] for o in t["ops"]], "trace": t},
-                        )
+    byid = {t["id"]: t for t in traces}
+    report(ctx, fails, byid, excnames, table)
+    if conforms == "neither":
+        for tid in sorted(fails):
+            for cls, clause, step, feature in fails[tid]:
+                if cls == "I":
+                    t = byid[tid]
+                    idxs = [o["i"] for o in t["ops"]]
+                    ctx.violation(
+                        "impl-model|" + clause,
+                        "the code's conflict bookkeeping matches neither the as-written nor the repaired Impl layer "
+                        "(%s at call %d): the T1 results do not transfer to this code" % (clause, step),
+                        {"c": t["c"], "nt": t["nt"], "ops": idxs, "calls": describe(table, idxs), "trace": t},
+                    )
     # ---- T1: design check ----------------------------------------------------------------
     runs = [("FALSE", T1_ALL, "as-written"), ("FALSE", T1_ORDER, "as-written-order"), ("TRUE", T1_ALL, "repaired")]
     if q:
         cfgs = [
             dict(level=2, nt=1, maxops=3, runs=runs),
-            dict(level=1, nt=2, maxops=3, runs=runs[1:]),
+            dict(level=1, nt=2, maxops=3, runs=runs[2:]),
         ]
     else:
         cfgs = [
@@ -502,12 +492,15 @@ def run(ctx):
     # ---- evidence ------------------------------------------------------------------------
     ctx.cov["distinct_nontrivial"] = nontrivial
     ctx.cov["histories_continuing_after_a_rejection"] = rejected_then_more
+    ctx.cov["traces_per_group"] = pergroup
+    ctx.cov["impl_layer_conformance"] = conforms
+    ctx.cov["t1"] = ctx.notes["t1"]
     ctx.cov["rule"] = (
         "T1: exhaustive BFS of EffectConflicts within the stated constants (both Repaired settings). "
-        "T2: every sequence of L calls over the TLC-emitted table (%s), per container, replayed on fresh objects; "
-        "T3: plus seeded random histories of 4-9 calls over two time points; every record judged against both layers. "
-        "A history is counted non-trivial when at least one call was rejected."
-        % "; ".join("%s: Level %d, %d time point(s), L=%d, %d traces" % (g["label"], g["level"], g["nt"], g["L"], len(g["traces"])) for g in groups)
+        "T2: every sequence of L calls over the group's sub-universe of the TLC-emitted table, per container, replayed "
+        "on fresh objects (groups and trace counts in traces_per_group; full = 33 calls per time point, core = 14); "
+        "T3: plus %d seeded random histories of 4-9 calls over two time points; every record judged against both layers. "
+        "A history is counted non-trivial when at least one call was rejected." % nrand
     )
     ctx.cov["exhaustive"] = True
     ctx.assumptions += [
@@ -521,30 +514,33 @@ def run(ctx):
 # ----------------------------------------------------------------------------------------
 def selftest(ctx):
     """Binding demonstration: corrupt one recorded field per trace; the judge must reject each."""
-    table, tabpath, hist = enumerate_histories(ctx, "self", 1, 1, 2, CONTAINERS)
-    W = World(table)
-    base = []
-    for h in hist[:: max(1, len(hist) // 60)]:
-        t, _ = W.replay(h["c"], h["ops"], True)
-        base.append(t)
     import copy
 
+    table, tabpath, hist = enumerate_histories(ctx, "GroupsQuick")
+    W = World(table)
+    hist = [h for h in hist if h["g"] == "full-L2"]
     traces, expect = [], {}
-    for n, t in enumerate(base):
+    for n, h in enumerate(hist[:: max(1, len(hist) // 60)]):
+        t, _ = W.replay(h["c"], h["ops"], h["nt"], True, True)
         good = copy.deepcopy(t)
-        good["id"] = 3 * n
+        good["id"] = 4 * n
         traces.append(good)
         a = copy.deepcopy(t)
-        a["id"] = 3 * n + 1
+        a["id"] = 4 * n + 1
         a["ops"][-1]["r"] = 1 - min(a["ops"][-1]["r"], 1)  # flip the raise verdict of the last call
         traces.append(a)
         expect[a["id"]] = "r"
         b = copy.deepcopy(t)
-        b["id"] = 3 * n + 2
+        b["id"] = 4 * n + 2
         b["ops"][-1]["pr"][0][1] = 1 - min(b["ops"][-1]["pr"][0][1], 1)  # flip one probe answer
         traces.append(b)
         expect[b["id"]] = "pr"
-    fails = judge(ctx, "self", 1, 1, tabpath, traces, False)
+        c = copy.deepcopy(t)
+        c["id"] = 4 * n + 3
+        c["ops"][-1]["st"][0] = c["ops"][-1]["st"][0] + [1]  # one more stored effect than there is
+        traces.append(c)
+        expect[c["id"]] = "st"
+    fails = judge(ctx, "self", tabpath, traces, False)
     missed = [i for i in expect if not any(b[0] in ("S", "O") for b in fails.get(i, []))]
     print("selftest: %d corrupted traces, %d rejected, %d missed" % (len(expect), len(expect) - len(missed), len(missed)))
     return 1 if missed else 0
@@ -556,12 +552,12 @@ def replay(ctx, data):
     if "ops" not in d:
         print("this replay file holds a design-level (T1) counterexample; see its 'trace'")
         return 0
-    table, tabpath, _ = enumerate_histories(ctx, "replay", d["level"], d["nt"], 0, ())
+    table, tabpath, _ = enumerate_histories(ctx, "GroupsNone")
     W = World(table)
-    t, excs = W.replay(d["c"], d["ops"], True)
+    t, excs = W.replay(d["c"], d["ops"], d["nt"], True, True)
     t["id"] = 0
     for o, e in zip(t["ops"], excs):
-        print(table[o["i"] - 1], "->", o["r"], e, "stored", o["st"], "sim", o["sm"])
-    fails = judge(ctx, "replay", d["level"], d["nt"], tabpath, [t], False)
+        print(describe(table, [o["i"]])[0], "->", o["r"], e, "stored", o["st"], "sim", o["sm"])
+    fails = judge(ctx, "replay", tabpath, [t], False)
     print("judge:", fails.get(0, "conforms"))
     return 1 if any(b[0] in ("S", "O") for b in fails.get(0, [])) else 0
